@@ -133,7 +133,7 @@ func claimKey(o *Obligation) string {
 		if i >= 0 {
 			return o.Name[:i] + ":safe"
 		}
-	case "pre", "spawn", "guard", "chan":
+	case "pre", "spawn", "guard", "chan", "crash":
 		return ordinalRe.ReplaceAllString(o.Name, "")
 	}
 	return o.Name
@@ -141,7 +141,7 @@ func claimKey(o *Obligation) string {
 
 // missingIsViolation: a claimed key for which no obligation is generated any more.
 func missingIsViolation(key string) bool {
-	for _, k := range []string{":safe", ":pre[", ":spawn[", ":guard[", ":chan["} {
+	for _, k := range []string{":safe", ":pre[", ":spawn[", ":guard[", ":chan[", ":crash["} {
 		if strings.Contains(key, k) {
 			return false // the function, call site or access was removed: nothing left that could violate the clause
 		}
@@ -488,7 +488,7 @@ func cmdCheck(args []string) int {
 			}
 			continue
 		}
-		if !claimed && (o.Kind == "pre" || o.Kind == "spawn" || o.Kind == "guard") && o.Status != "discharged" && !noclaim(o.Name) && len(baseline) > 0 {
+		if !claimed && (o.Kind == "pre" || o.Kind == "spawn" || o.Kind == "guard" || o.Kind == "crash") && o.Status != "discharged" && !noclaim(o.Name) && len(baseline) > 0 {
 			// a call site, spawn or guarded access that is new relative to the baseline and violates the callee's
 			// precondition / the lock discipline: claimed implicitly (otherwise a new bad call site would go unnoticed)
 			claimed = true
@@ -537,6 +537,30 @@ func cmdCheck(args []string) int {
 			}
 		}
 	}
+	// bounded stand-ins: functions outside the executor's reach are exercised by a Go driver over a stated finite space.
+	// They are never counted as proved; a failure is a violation with the driver's output as replay.
+	var boundedReports []string
+	for _, b := range ps.Bounded {
+		name, desc := firstWord(b)
+		drv, err := loadDriver(*verif, name)
+		if err != nil {
+			fmt.Fprintln(os.Stderr, "error: bounded driver:", err)
+			return 2
+		}
+		body := strings.ReplaceAll(drv.Body, "{{seed}}", strconv.Itoa(seed))
+		body = strings.ReplaceAll(body, "{{tier}}", *tier)
+		out, _ := runOverlayTest(*repo, drv.Pkg, body, drv.Flags, "")
+		m := regexp.MustCompile(`BOUNDED-OK cases=(\d+)`).FindStringSubmatch(out)
+		if m != nil && !strings.Contains(out, "BOUNDED-VIOLATION") {
+			boundedReports = append(boundedReports, fmt.Sprintf("bounded (not counted as proved): %s - %s: %s cases, all passed", name, desc, m[1]))
+			continue
+		}
+		violations++
+		path := filepath.Join(replayDir, *prop+"_bounded_"+sanitize(name)+".txt")
+		os.WriteFile(path, []byte("bounded stand-in "+name+": "+desc+"\n\n--- driver output ---\n"+out+"\n"), 0o644)
+		fmt.Printf("VIOLATION property=%s replay=%s bounded stand-in %s failed (%s)\n", *prop, path, name, desc)
+		boundedReports = append(boundedReports, fmt.Sprintf("bounded: %s FAILED", name))
+	}
 	for _, m := range missing {
 		fmt.Printf("VIOLATION property=%s replay=%s contract target missing: %s no-failing-input-found\n", *prop, filepath.Join(replayDir, *prop+"_missing.txt"), m)
 		os.WriteFile(filepath.Join(replayDir, *prop+"_missing.txt"), []byte("contract target missing: "+m+"\n"), 0o644)
@@ -566,7 +590,7 @@ func cmdCheck(args []string) int {
 		*prop, *tier, discharged, total, len(attempted), len(knownPrinted), len(reports), sweepFns, loadS, genS, wall)
 	if *only == "" && !*noEvidence {
 		writeEvidence(filepath.Join(*verif, "evidence", *prop+".json"), ps, *tier, seed, obs, reports, baseline, known, knownPrinted, attempted,
-			discharged, total, violations, wall, float64(pf.TotalMs)/1000, prog)
+			discharged, total, violations, wall, float64(pf.TotalMs)/1000, prog, boundedReports)
 	}
 	if total == 0 && *only == "" && !*writeBaseline {
 		fmt.Printf("VIOLATION property=%s replay=%s vacuity: no claimed obligations were generated no-failing-input-found\n", *prop, filepath.Join(replayDir, *prop+"_vacuity.txt"))
@@ -595,7 +619,7 @@ func writeReplayFile(path, prop string, o *Obligation, why string) {
 }
 
 func writeEvidence(path string, ps *PropSpec, tier string, seed int, obs []*Obligation, reports []*FuncReport,
-	baseline map[string]bool, known map[string]Finding, knownPrinted, attempted []string, discharged, total, violations int, wall, solverS float64, prog *Program) {
+	baseline map[string]bool, known map[string]Finding, knownPrinted, attempted []string, discharged, total, violations int, wall, solverS float64, prog *Program, boundedReports []string) {
 	type obRec struct {
 		Name    string `json:"name"`
 		Status  string `json:"status"`
@@ -693,7 +717,7 @@ func writeEvidence(path string, ps *PropSpec, tier string, seed int, obs []*Obli
 			"solver_time_s":           solverS,
 			"known_findings":          knownPrinted,
 			"attempted_not_claimed":   attempted,
-			"bounded":                 ps.Bounded,
+			"bounded":                 boundedReports,
 			"functions_under_contract": len(fns),
 		},
 	}
